@@ -68,12 +68,14 @@ def gen_inputs(key, r):
         return dict(CIJ=(A != 0).astype(float), k=int(r.randint(1, 4))) if base == 'kcore_bu' else dict(CIJ=A, s=float(r.choice([.5, 1., 2., 3.5])))
     if base == 'kcore_bd':
         return dict(CIJ=(_dir(r, n) != 0).astype(float), k=int(r.randint(1, 5)))
-    if base in ('modularity_finetune_und', 'modularity_finetune_dir', 'modularity_finetune_und_sign'):
+    if base in ('modularity_finetune_und', 'modularity_finetune_dir', 'modularity_finetune_und_sign', 'modularity_probtune_und_sign'):
         Wm = _und(r, n, signed=base.endswith('sign'), p=.7) if '_und' in base else _dir(r, n, p=.6)
         if Wm.sum() <= 0 and not base.endswith('sign'):
             return None
         ci = r.randint(0, 3, n) * 3 + 2
         d = dict(W=Wm, ci=ci, gamma=float(r.choice([.8, 1., 1.3])), seed=Scripted((), fallback_seed=int(r.randint(1 << 30)), max_draws=20000))
+        if base == 'modularity_probtune_und_sign':
+            d['p'] = float(r.choice([0., .2, .5, 1.]))
         if base.endswith('sign'):
             d['qtype'] = str(r.choice(['sta', 'pos', 'smp', 'gja', 'neg']))
             if not ((Wm > 0).any() and (Wm < 0).any()):
